@@ -174,7 +174,30 @@ def sig_bondgo_chanlinks(job, name, a, b):
         return False
 
 
+def sig_bmapi_uartusb(job, name, a, b):
+    """board top module with the uartusb BMAPI: identical except that the positional connections of the
+    bmapiuarttransceiver instance list the same ports in another order"""
+    if job["tool"] != "bondmachine" or "uartusb" not in job["kind"] or not name.endswith("bondmachine_main.v"):
+        return False
+    la, lb = a.split(b"\n"), b.split(b"\n")
+    if len(la) != len(lb):
+        return False
+    hit = False
+    for x, y in zip(la, lb):
+        if x == y:
+            continue
+        if b"bmapiuarttransceiver_inst(" not in x or b"bmapiuarttransceiver_inst(" not in y:
+            return False
+        if sorted(t.strip() for t in x.split(b",")) != sorted(t.strip() for t in y.split(b",")):
+            return False
+        hit = True
+    return hit
+
+
 SIGNATURES = {
+    "C07-bmapi-uartusb-port-order": (sig_bmapi_uartusb,
+                                     "bondmachine -create-verilog -use-bmapi -bmapi-flavor uartusb connects the ports of the "
+                                     "bmapiuarttransceiver (positionally) in the map order of BMAPIExtra.Get_Params"),
     "C07-bondgo-channel-links-order": (sig_bondgo_chanlinks,
                                        "bondgo Create_Bondmachine connects the processors to the channels by ranging over the channel "
                                        "requirement map: Shared_links of the saved machine come out in map order"),
@@ -248,12 +271,11 @@ def make_jobs(thorough, stage_dir):
             continue
         jobs.append({"tool": "basm", "kind": "basm", "inputs": [src], "copy": {"bminfo.json": _corp("empty_bminfo.json")},
                      "argv": [_bin("basm")] + chooser + ["-o", "{out}/bm.json", "-bo", "{out}/bm.bcof",
-                                                         "-bminfo-file", "{out}/bminfo.json", src]})
+                                                         "-bminfo-file", "{out}/bminfo.json",
+                                                         "-dump-requirements", "{out}/req.json", src]})
         if b"mapclk" in open(src, "rb").read():
             jobs.append({"tool": "basm", "kind": "basm-mapfile", "inputs": [src],
                          "argv": [_bin("basm")] + chooser + ["-o", "{out}/bm.json", "-create-mapfile", "{out}/map.json", src]})
-        jobs.append({"tool": "basm", "kind": "basm-dumpreq", "inputs": [src],
-                     "argv": [_bin("basm")] + chooser + ["-o", "{out}/bm.json", "-dump-requirements", "{out}/req.json", src]})
     for f in sorted(f for f in os.listdir(CORP) if f.endswith(".go")):
         src = _corp(f)
         jobs.append({"tool": "bondgo", "kind": "bondgo", "inputs": [src], "may_hang": True,
@@ -292,7 +314,7 @@ def make_jobs(thorough, stage_dir):
     # the race detector
     fan = _corp("net_fanin_640_2_1.json")
     if os.path.exists(fan):
-        jobs.append({"tool": "neuralbond", "kind": "neuralbond-fanin", "inputs": [fan], "gomaxprocs": "16", "min_runs": 10, "timeout": 90,
+        jobs.append({"tool": "neuralbond", "kind": "neuralbond-fanin", "inputs": [fan], "gomaxprocs": "16", "min_runs": 8, "timeout": 90,
                      "argv": [_bin("neuralbond"), "-net-file", fan, "-neuron-lib-path", lib, "-data-type", "float32",
                               "-save-basm", "{out}/net.basm"]})
         if os.path.exists(_bin("neuralbond-race")):
@@ -308,6 +330,22 @@ def make_jobs(thorough, stage_dir):
                      "inputs": ["<first bm.json of basm on %s>" % bj["inputs"][0], _corp("empty_simbox.json")], "cwd_out": True,
                      "argv": [_bin("bondmachine"), "-bondmachine-file", os.path.join(st, "bm.json"), "-create-verilog",
                               "-verilog-flavor", "iverilog", "-verilog-simulation", "-simbox-file", _corp("empty_simbox.json")]})
+    # bondmachine -create-verilog for a board with the BMAPI extra module, every flavour the CLI accepts, on the
+    # machine with six inputs and three outputs (the port lists of the module come out of a map)
+    many = next((j for j in jobs if j["kind"] == "basm" and j["inputs"][0].endswith("mapfile_many_io.basm")), None)
+    if many and os.path.exists(_corp("bmapi_map_6in_3out.json")):
+        st = os.path.join(stage_dir, "bmapi-many")
+        for fl, ver in (("aximm", ""), ("uartusb", ""), ("axist", "basic")) + ((("axist", "optimized"),) if thorough else ()):
+            argv = [_bin("bondmachine"), "-bondmachine-file", os.path.join(st, "bm.json"), "-register-size", "8", "-create-verilog",
+                    "-verilog-flavor", "zedboard", "-verilog-mapfile", _corp("board_map_clk_reset.json"), "-use-bmapi",
+                    "-bmapi-flavor", fl, "-bmapi-language", "c", "-bmapi-mapfile", _corp("bmapi_map_6in_3out.json"),
+                    "-bmapi-liboutdir", "lib", "-bmapi-modoutdir", "mod", "-bmapi-auxoutdir", "aux"]
+            if ver:
+                argv += ["-bmapi-flavor-version", ver]
+            jobs.append({"tool": "bondmachine", "kind": "create-verilog-bmapi-" + fl + ("-" + ver if ver else ""), "after": many,
+                         "stage": st, "stage_file": "bm.json", "cwd_out": True,
+                         "inputs": ["<first bm.json of basm on %s>" % many["inputs"][0], _corp("bmapi_map_6in_3out.json"),
+                                    _corp("board_map_clk_reset.json")], "argv": argv})
     # bmqsim -> basm
     bmq = os.path.join(repo, "cmd", "bmqsim", "program.bmq")
     if os.path.exists(bmq):
@@ -495,7 +533,7 @@ def correspondence(rep, thorough, only_job=None):
                 open(os.path.join(j["stage"], j["stage_file"]), "wb").write(src["files"][j["stage_file"]])
             runnable.append(j)
         rng.shuffle(runnable)
-        with concurrent.futures.ThreadPoolExecutor(max_workers=6) as ex:
+        with concurrent.futures.ThreadPoolExecutor(max_workers=8) as ex:
             for jid, runs in ex.map(do, runnable):
                 results[jid] = runs
                 finished.add(jid)
